@@ -175,16 +175,39 @@ def build(e):
             kw["start"] = inst(e["s"])
         if e["he"]:
             kw["end"] = inst(e["e"])
+        # the arguments belong to the caller: they are edited after the call (a calendar that kept the caller's
+        # list or table instead of a copy then answers something else); dict definitions are padded to a complete
+        # week table with zeros for every other expression (the same calendar by definition)
         if e["form"] == "list":
-            return pj.WeeklyCalendar(days=list(e["days"]), units_per_day=num(e["u"]), **kw)
-        return pj.WeeklyCalendar(units_per_day={d: num(u) for d, u in zip(e["days"], e["us"])}, **kw)
+            dl = list(e["days"])
+            cal = pj.WeeklyCalendar(days=dl, units_per_day=num(e["u"]), **kw)
+            dl.clear()
+            dl.extend([0, 1, 2, 3, 4, 5, 6])
+            return cal
+        table = {d: num(u) for d, u in zip(e["days"], e["us"])}
+        if table and all(isinstance(d, int) and 0 <= d <= 6 for d in table) and (sum(table) + len(table)) % 2 == 0:
+            for d in range(7):
+                table.setdefault(d, 0)
+        cal = pj.WeeklyCalendar(units_per_day=table, **kw)
+        for d in list(table):
+            table[d] = 97
+        table.clear()
+        return cal
     if k == "direct":
         # keys carry a time of day: the class must normalise them to the day
-        items = [(inst(d * DAY + (540 if i % 2 else 0), 250000 if i % 3 == 0 else 0), num(u))
+        # (every other definition has whole days as keys: nothing to normalise); the table handed in is edited
+        # after the call, as above
+        whole = sum(e["days"]) % 2 == 0
+        items = [(inst(d * DAY + (540 if i % 2 and not whole else 0), 250000 if i % 3 == 0 and not whole else 0), num(u))
                  for i, (d, u) in enumerate(zip(e["days"], e["us"]))]
         cuts = [0] + list(e.get("cut") or []) + [len(items)]
         if len(cuts) == 2 and not e.get("bad"):
-            return pj.DirectCalendar(dict(items))
+            table = dict(items)
+            cal = pj.DirectCalendar(table)
+            for d in list(table):
+                table[d] = 97
+            table[inst(3 * DAY)] = 96
+            return cal
         cal = pj.DirectCalendar(dict(items[:cuts[1]])) if cuts[1] else pj.DirectCalendar()
         for a, b in zip(cuts[1:], cuts[2:]):
             if e.get("bad") and a == e["badat"]:
@@ -327,7 +350,8 @@ def observe(eid, e, rng, window=21, light=False):
     micro = 0 if ends else 333333
     for frm in (starts if not light else rng.sample(starts, 2)):
         for direction in (1, -1):
-            for mx in ((0, 1, 2, 3, 8) if not light else (rng.choice((0, 1, 2)), 8)):
+            # horizons also shrink again: an answer found with a long horizon says nothing about a short one
+            for mx in ((0, 1, 2, 3, 8, 2, 0) if not light else (rng.choice((0, 1, 2)), 8, rng.choice((0, 1, 2)))):
                 s = {"from": frm, "dir": direction, "max": mx, "at": -1, "exc": ""}
                 try:
                     at = res.get_nearest_availability_date(inst(frm, micro), direction, mx)
